@@ -31,6 +31,7 @@ import struct
 import types
 
 from xdis.codetype import Code2, Code3
+from xdis.cross_types import LongTypeForPython3, UnicodeForPython3
 from xdis.version_info import PYTHON3, PYTHON_VERSION_TRIPLE, version_tuple_to_str
 
 try:
@@ -110,6 +111,24 @@ class _Marshaller:
                 "code type passed for version %s but we are running version %s"
                 % (version_tuple_to_str(), self.python_version)
             )
+        if PYTHON3 and self.python_version and self.python_version < (3, 0):
+            # Writing Python 2 bytecode from Python 3. Python 2 has two
+            # string types and two integer types; the unmarshaller keeps
+            # them apart, and so must we.
+            if isinstance(x, UnicodeForPython3):
+                self._write(TYPE_UNICODE)
+                self.w_long(len(x.value))
+                self._write(x.value)
+                return
+            elif type(x) is str:
+                self.dump_string(x.encode("utf-8"))
+                return
+            elif type(x) is LongTypeForPython3:
+                self.dump_long(int(x))
+                return
+            elif type(x) is int:
+                self.dump_int(x)
+                return
         try:
             self.dispatch[type(x)](self, x)
         except KeyError:
@@ -1112,6 +1131,8 @@ def dumps(x, version=version, python_version=PYTHON_VERSION_TRIPLE):
             else:
                 buf.append(b)
 
+        if PYTHON3:
+            return b"".join(buf)
         return "".join(buf)
 
 
